@@ -88,6 +88,9 @@ def tasks_for(pid, spec, tier):
         tasks.append((tgt, 'seq'))
         if pid in INTF and is_cache_method(con):
             tasks.append((tgt, 'intf'))
+    for lem in spec.sf.lemmas:
+        if pid in lem.tags:
+            tasks.append(('lemma:' + (lem.label or str(lem.line)), 'seq'))
     return tasks, []
 
 
